@@ -61,6 +61,8 @@ var _ *openfgav1.Userset
 //@   -- "least occurrence" (no whole-word occurrence before the result) is not carried by the string solvers within the
 //@   -- cap; it is covered by the bounded stand-in B5 (positions) only.
 //@   loop 1 invariant symbol != "" && 0 <= offset && offset <= len(line)
+//@   -- C08 "never hangs": every iteration moves the search start at least one character to the right
+//@   loop 1 decreases len(line) - offset
 
 //@ func isIdentifierChar
 //@   props C16
